@@ -17,14 +17,14 @@ Rewrites (each preserves the value of every expression and the order of all side
   split-or-guard         if a or b: exit        ->   if a: exit ; if b: exit
   ifexp-to-if            t = A if c else B      ->   if c: t = A else: t = B
   reword-error           the text of an error message is changed (type unchanged)
-  exchange / aliasparam / deadbranch / wraptrue / pluszero / demorgan / shapesize / shapeidx / lenshape / kwpos / dimaxis / unpackshape / enumloop : adversarial-style rewrites (names of two locals exchanged
+  exchange / aliasparam / deadbranch / wraptrue / pluszero / demorgan / shapesize / shapeidx / lenshape / kwpos / dimaxis / unpackshape / enumloop / torchdual / ndim : adversarial-style rewrites (names of two locals exchanged
                          consistently, a parameter read through an alias, `if False: raise`, body wrapped in `if True:`, `e + 0` in an
                          index, De Morgan on a two-operand test, `p.shape[k]` of a torch parameter
                          read as `p.size(k)`, `p.shape[-1]` of a
                          parameter documented with rank 3 read as `p.shape[2]`, `p.shape[0]` of a tensor parameter read as `len(p)` and back, one argument of a
                          call of a package function moved between positional and keyword form, the
                          dimension argument of a torch reduction spelled dim= / axis= / positionally, the extents of a parameter of documented rank read
-                         through `a, b, c = p.shape`, `for i in range(len(xs))` with xs[i] <-> `for i, x in enumerate(xs)`)
+                         through `a, b, c = p.shape`, `for i in range(len(xs))` with xs[i] <-> `for i, x in enumerate(xs)`, `torch.f(x, ..)` <-> `x.f(..)`, `len(x.shape)` <-> `x.ndim`)
 usage: python -m tmverif.preserve <PID> --funcs mod.func,mod.func [--jobs 16] [--json out.json]
 """
 import ast, copy, json, os, shutil, subprocess, sys, tempfile
@@ -182,8 +182,29 @@ def rewrites_of(func):
         out.append(("unpack-shape @%d `%s.shape` read through `_d0..` before `%s`" % (st.lineno, p_, ast.unparse(st)[:30]), ("unpackshape", k)))
     for k, (lp, how) in enumerate(enum_loops(func)[:8]):
         out.append(("loop-form @%d `for %s in %s` %s" % (lp.lineno, ast.unparse(lp.target), ast.unparse(lp.iter)[:30], how), ("enumloop", k)))
+    for k, x in enumerate(torch_dual_nodes(func)[:8]):
+        out.append(("torch-dual @%d `%s` -> method form" % (x.lineno, ast.unparse(x)[:40]), ("torchdual", k)))
+    for k, x in enumerate(ndim_nodes(func)[:4]):
+        out.append(("ndim @%d `%s`" % (x.lineno, ast.unparse(x)[:40]), ("ndim", k)))
     out.append(("nop statement at the top", ("nop", 0)))
     return out
+
+
+def torch_dual_nodes(func):
+    """torch.f(x, ..) calls of an operation that also exists as the tensor method x.f(..)"""
+    from .canon import TORCH_DUAL
+    return sorted([n for n in ast.walk(func) if isinstance(n, ast.Call) and isinstance(n.func, ast.Attribute) and n.func.attr in TORCH_DUAL and
+                   isinstance(n.func.value, ast.Name) and n.func.value.id == "torch" and n.args and
+                   isinstance(n.args[0], (ast.Name, ast.Subscript, ast.Attribute)) and not any(k.arg in ("input", "out") for k in n.keywords)],
+                  key=lambda n: (n.lineno, n.col_offset))
+
+
+def ndim_nodes(func):
+    """len(x.shape) / x.ndim reads"""
+    out = [n for n in ast.walk(func) if isinstance(n, ast.Attribute) and n.attr == "ndim" and isinstance(n.ctx, ast.Load)]
+    out += [n for n in ast.walk(func) if isinstance(n, ast.Call) and isinstance(n.func, ast.Name) and n.func.id == "len" and len(n.args) == 1 and
+            isinstance(n.args[0], ast.Attribute) and n.args[0].attr == "shape"]
+    return sorted(out, key=lambda n: (n.lineno, n.col_offset))
 
 
 from .canon import _untouched
@@ -541,6 +562,18 @@ def apply(func, spec):
                     _replace_node(st, x, ast.Name(id="_item", ctx=ast.Load()))
             lp.iter = ast.Call(func=ast.Name(id="enumerate", ctx=ast.Load()), args=[ast.Name(id=e, ctx=ast.Load())], keywords=[])
             lp.target = ast.Tuple(elts=[ast.Name(id=i, ctx=ast.Store()), ast.Name(id="_item", ctx=ast.Store())], ctx=ast.Store())
+    elif kind == "torchdual":
+        x = torch_dual_nodes(func)[spec[1]]
+        recv = x.args[0]
+        x.args = list(x.args[1:])
+        x.func = ast.Attribute(value=recv, attr=x.func.attr, ctx=ast.Load())
+    elif kind == "ndim":
+        x = ndim_nodes(func)[spec[1]]
+        if isinstance(x, ast.Attribute):
+            new = ast.Call(func=ast.Name(id="len", ctx=ast.Load()), args=[ast.Attribute(value=x.value, attr="shape", ctx=ast.Load())], keywords=[])
+        else:
+            new = ast.Attribute(value=x.args[0].value, attr="ndim", ctx=ast.Load())
+        _replace_node(func, x, new)
     elif kind == "demorgan":
         n = nodes[spec[1]]
         t = n.test
